@@ -1,6 +1,6 @@
 (** Dispatch table used by the extracted runner: property number -> model runner / monitor. *)
 From RRE Require Import Base.Sx.
-From RRE Require Model.Watermark Model.Tms Model.ProofGraph Model.Undo Model.Module Model.Window Model.Join Model.KB Model.Index Model.State Model.ReteAgenda Model.EngineConc.
+From RRE Require Model.Watermark Model.Tms Model.ProofGraph Model.Undo Model.Module Model.Window Model.Join Model.KB Model.Index Model.State Model.ReteAgenda Model.EngineConc Model.Parallel.
 Open Scope Z_scope.
 
 Definition run_by_id (id : Z) (c : sx) : sx :=
@@ -17,6 +17,7 @@ Definition run_by_id (id : Z) (c : sx) : sx :=
   | 16 => Index.run_sx c
   | 17 => ProofGraph.run_sx c
   | 18 => Module.run_sx c
+  | 19 => Parallel.run_sx c
   | 20 => State.run_sx c
   | _ => sx_bad
   end.
@@ -39,6 +40,7 @@ Definition ok_by_id (id : Z) (c o : sx) : Z :=
   | 16 => b2z (Index.ok_sx c o)
   | 17 => b2z (ProofGraph.ok_sx c o)
   | 18 => Module.ok_sx c o
+  | 19 => b2z (Parallel.ok_sx c o)
   | 20 => b2z (State.ok_sx c o)
   | _ => 0
   end.
